@@ -82,7 +82,8 @@ pub fn run_grp() {
         for mask in 1..(1i64 << nopt) {
             // the macro side: the requested traits in REVERSE input order (the macro must sort them itself)
             let req: Vec<&String> = (0..nopt).rev().filter(|b| mask & (1 << b) != 0).map(|b| &names[nmand + b]).collect();
-            let req_src = format!("g impl {}", req.iter().map(|s| s.as_str()).collect::<Vec<_>>().join(" + "));
+            // some of the requested traits are written with a module path (the request names the same traits: only the last segment identifies one)
+            let req_src = format!("g impl {}", req.iter().enumerate().map(|(j, s)| match (j + mask as usize) % 3 { 1 => format!("some::path::{}", s), 2 => format!("self::{}", s), _ => s.to_string() }).collect::<Vec<_>>().join(" + "));
             let mut row = vec![mask];
             let (mut with_fr, mut final_fr): (Vec<i64>, Vec<i64>) = (vec![], vec![]);     // field sequences of the structs that cast / into build
             for (ct, pre) in [(cglue_gen::trait_groups::CastType::Cast, "cast"), (cglue_gen::trait_groups::CastType::AsRef, "as_ref"), (cglue_gen::trait_groups::CastType::AsMut, "as_mut"),
